@@ -367,7 +367,7 @@ func (e *Engine) coordCheckFresh(s *State, fr *Frame, results []Value, pos ssa.I
 //   mapval(m, k)          the value stored under key k of map m (use under has(m, k))
 //   fresh(x)              x (pointer, map, slice) is non-nil and was allocated after the entry state
 //   keepsMem("T")         every []T backing array that existed in the entry state has its entry contents
-//   keepsMap("K", "V")    every map[K]V that existed in the entry state has its entry domain and values
+//   keepsMap("K", "V", m...)  every map[K]V that existed in the entry state, except the maps m..., has its entry domain and values
 //   keepsMapLen()         every map (of any type) that existed in the entry state has its entry length
 //   keepsField("T", "f")  field f of every T object that existed in the entry state has its entry value
 // "Entry state" is the state old() refers to: function entry in the function's own clauses, the state before
@@ -446,6 +446,33 @@ func (e *Engine) freshSpec(env *Env, fun string, args []Expr) (TV, bool, error) 
 		body := fmt.Sprintf("(=> (<= b_r %s) (= (select %s b_r) (select %s b_r)))", k.S, cur.S, old.S)
 		return Term{fmt.Sprintf("(forall ((b_r Int)) %s)", wrap(body, fmt.Sprintf("(select %s b_r)", cur.S))), SBool}
 	}
+	sameExcept := func(key string, except []Term) Term {
+		if len(except) == 0 {
+			return same(key)
+		}
+		sort := e.heapSorts[key]
+		cur := env.s.heapGet(key, sort)
+		var old Term
+		if t, ok := env.old.heap[key]; ok {
+			old = t
+		} else {
+			old = e.heapInit(key, sort, false)
+		}
+		if cur.S == old.S {
+			return TTrue
+		}
+		guard := []Term{Le(Term{"b_r", SInt}, k)}
+		for _, x := range except {
+			guard = append(guard, Not(Eq(Term{"b_r", SInt}, x)))
+		}
+		inner := arrayElemSort(sort)
+		ks := arrayKeySort(inner)
+		body := fmt.Sprintf("(=> %s (= (select (select %s b_r) j_r) (select (select %s b_r) j_r)))", And(guard...).S, cur.S, old.S)
+		if e.patternUnsafe(cur.S, 0) {
+			return Term{fmt.Sprintf("(forall ((b_r Int) (j_r %s)) %s)", ks, body), SBool}
+		}
+		return Term{fmt.Sprintf("(forall ((b_r Int) (j_r %s)) (! %s :pattern ((select (select %s b_r) j_r))))", ks, body, cur.S), SBool}
+	}
 	switch fun {
 	case "fresh":
 		t, err := e.evalTerm(env, args[0])
@@ -492,7 +519,15 @@ func (e *Engine) freshSpec(env *Env, fun string, args []Expr) (TV, bool, error) 
 			return TV{}, true, fmt.Errorf("keepsMap: cannot resolve type %q", vn)
 		}
 		dk, vk, _ := e.mapHeapKeys(types.NewMap(kt, vt))
-		return TV{And(same(dk), same(vk)), boolT}, true, nil
+		var except []Term
+		for _, a := range args[2:] {
+			t, err := e.evalTerm(env, a)
+			if err != nil {
+				return TV{}, true, err
+			}
+			except = append(except, t)
+		}
+		return TV{And(sameExcept(dk, except), sameExcept(vk, except)), boolT}, true, nil
 	case "keepsMapLen":
 		// the engine keeps one length array for the maps of all types
 		_, _, lk := e.mapHeapKeys(types.NewMap(types.Typ[types.String], types.Typ[types.Int]))
